@@ -46,11 +46,24 @@ impl AsMut<Own> for Own { fn as_mut(&mut self) -> &mut Own { rt::op(format!("own
 impl AsRef<[u64]> for Own { fn as_ref(&self) -> &[u64] { rt::op(format!("own_as_ref_slice({})", self.id)); &self.data } }
 impl AsMut<[u64]> for Own { fn as_mut(&mut self) -> &mut [u64] { rt::op(format!("own_as_mut_slice({})", self.id)); &mut self.data } }
 
+/// The generic counterpart of `Own`: a field type with type parameters whose reflexive `AsRef`/`AsMut`
+/// is a logging, non-trivial implementation.
+#[derive(Debug, Clone, PartialEq)]
+pub struct OwnG<T> { pub id: u32, pub data: Vec<T> }
+impl OwnG<u64> {
+    pub fn new(id: u32) -> Self { OwnG { id, data: (0..3).map(|k| id as u64 * 1000 + k).collect() } }
+}
+impl<T> AsRef<OwnG<T>> for OwnG<T> { fn as_ref(&self) -> &OwnG<T> { rt::op(format!("owng_as_ref({})", self.id)); self } }
+impl<T> AsMut<OwnG<T>> for OwnG<T> { fn as_mut(&mut self) -> &mut OwnG<T> { rt::op(format!("owng_as_mut({})", self.id)); self } }
+impl<T> AsRef<[T]> for OwnG<T> { fn as_ref(&self) -> &[T] { rt::op(format!("owng_as_ref_slice({})", self.id)); &self.data } }
+impl<T> AsMut<[T]> for OwnG<T> { fn as_mut(&mut self) -> &mut [T] { rt::op(format!("owng_as_mut_slice({})", self.id)); &mut self.data } }
+
 /// Identity + contents of what a reference points to (never goes through a spy trait impl).
 pub trait Desc { fn desc(&self) -> String; }
 impl Desc for u64 { fn desc(&self) -> String { format!("u64@{}={}", rt::addr(self), self) } }
 impl Desc for rt::SpyVec { fn desc(&self) -> String { format!("SpyVec#{}@{}{}", self.id, rt::addr(self), Desc::desc(&self.data)) } }
 impl Desc for Own { fn desc(&self) -> String { format!("Own#{}@{}{}", self.id, rt::addr(self), Desc::desc(&self.data)) } }
+impl<T: Desc> Desc for OwnG<T> { fn desc(&self) -> String { format!("OwnG#{}@{}{}", self.id, rt::addr(self), Desc::desc(&self.data)) } }
 impl<T: Desc> Desc for Vec<T> { fn desc(&self) -> String { format!("Vec@{}{}", rt::addr(self), Desc::desc(self.as_slice())) } }
 impl<T: Desc> Desc for [T] {
     fn desc(&self) -> String {
@@ -65,6 +78,7 @@ pub trait Poke { fn poke(&mut self, v: u64); }
 impl Poke for u64 { fn poke(&mut self, v: u64) { *self = self.wrapping_mul(31) ^ v; } }
 impl Poke for rt::SpyVec { fn poke(&mut self, v: u64) { self.data.push(v); } }
 impl Poke for Own { fn poke(&mut self, v: u64) { self.data.push(v); } }
+impl Poke for OwnG<u64> { fn poke(&mut self, v: u64) { self.data.push(v); } }
 impl Poke for Vec<u64> { fn poke(&mut self, v: u64) { self.push(v); } }
 impl Poke for [u64] { fn poke(&mut self, v: u64) { let n = self.len(); self[0] = self[0].wrapping_mul(31) ^ v; self[n - 1] ^= v << 8; } }
 impl<T: Poke + ?Sized> Poke for Box<T> { fn poke(&mut self, v: u64) { Poke::poke(&mut **self, v) } }
@@ -117,6 +131,8 @@ KINDS = {k.name: k for k in [
          others=[("[u64]", "[u64]"), ("Vec<u64>", "Vec<u64>")], deref="[u64]", index=[IDX_USIZE], iterable=True),
     Kind("vecT", ["Vec<T>"], "Vec<u64>", _vec, gen="u64",
          others=[("[T]", "[u64]")], self_asref=True, deref="[u64]", index=[IDX_USIZE, IDX_RANGE], iterable=True),
+    Kind("ownT", ["OwnG<T>"], "OwnG<u64>", lambda i: "OwnG::<u64>::new(%d)" % i, gen="u64",
+         others=[("[T]", "[u64]")], self_asref=True),
     Kind("boxT", ["Box<T>"], "Box<SpyVec>", lambda i: "Box::new(SpyVec::new(%d))" % i, gen="SpyVec",
          others=[("T", "SpyVec")], deref="SpyVec"),
 ]}
@@ -569,7 +585,7 @@ def gen_asref(rng, cid, scen=None):
     absent = []           # field indexes that must not be exposed
     is_forward = False
     if scen == "single":
-        kind = KINDS[rng.choice(("sv", "sv", "own", "own", "vec", "u64", "box", "T", "vecT"))]
+        kind = KINDS[rng.choice(("sv", "sv", "own", "own", "vec", "u64", "box", "T", "vecT", "ownT", "ownT"))]
         sp = rng.choice(kind.spellings) if rng.random() < 0.4 else kind.spellings[0]
         form = rng.choice(("none", "field_plain", "struct_forward", "field_forward", "struct_types", "field_types",
                            "struct_types", "field_types"))
@@ -594,7 +610,7 @@ def gen_asref(rng, cid, scen=None):
     elif scen == "multi_same":
         n = rng.choice((2, 2, 3, 3, 4))
         k = rng.randrange(n)
-        kind = KINDS[rng.choice(("sv", "sv", "own", "own", "vec", "u64", "box", "T", "vecT"))]
+        kind = KINDS[rng.choice(("sv", "sv", "own", "own", "vec", "u64", "box", "T", "vecT", "ownT", "ownT"))]
         what = rng.choice(("plain", "plain", "forward", "types", "types"))
         if what == "forward" and not (kind.others or kind.self_asref):
             what = "plain"
